@@ -152,7 +152,7 @@ func runC02ExtendsX(ctx *core.Ctx) {
 		Files:  map[string][][]any{"other.yaml": {{"x", nil, core.EncodeVal(map[string]any{"image": "from-x", "expose": []any{"x0"}})}}},
 		Orders: c02Perms([]string{"a", "b"}),
 	})
-	for i := 0; i < ctx.Pick(500, 12000); i++ {
+	for i := 0; i < ctx.Pick(320, 12000); i++ {
 		n := 2 + r.Intn(3) // 2..4 main services: 2, 6 or 24 orders
 		names := []string{"a", "b", "c", "d"}[:n]
 		onames := []string{"x", "y", "z"}
